@@ -205,6 +205,9 @@ theorem grows_exec {sys : Sys} (h : SysInv sys) (a : Action) (hf : a.fresh = tru
   | gcU n => exact .gcUsage h.store n
   | gcR g k n => exact .same h.store (SameUsages.gcRes _ g k n).usages
   | xa n c => exact .reapplyUsage h.store n c
+  | er g k n l => exact .same h.store (SameUsages.touchRes _ g k n l).usages
+  | stepW n o c => simp [Action.fresh] at hf
+  | xaRaw n c => simp [Action.fresh] at hf
   | start n =>
     simp only [Sys.exec]
     split
@@ -670,6 +673,9 @@ theorem trk_exec {sys : Sys} (h : SysInv sys) (a : Action) (hf : a.fresh = true)
   | gcU n' => exact ht.env h.store g hpre hpost.1
   | gcR g' k n' => exact ht.env h.store g hpre hpost.1
   | xa n' c => exact ht.env h.store g hpre hpost.1
+  | er g' k n' l => exact ht.env h.store g hpre hpost.1
+  | stepW n' o c => simp [Action.fresh] at hf
+  | xaRaw n' c => simp [Action.fresh] at hf
   | start m =>
     simp only [Sys.exec]
     split
